@@ -97,6 +97,8 @@ THEOREMS = [
     "OllamaVerif.Tie.C09.follow_matches_nethttp",
     "OllamaVerif.Tie.C09.mrr_table_complete",
     "OllamaVerif.Tie.C09.mrr_matches_makeRequestWithRetry",
+    "OllamaVerif.Tie.C09.verify_table_complete",
+    "OllamaVerif.Tie.C09.verifyLayer_matches_model",
     "OllamaVerif.Tie.C09.tree_verifies",
     "OllamaVerif.Tie.C09.tree_pull_success_verified",
     "OllamaVerif.Tie.C09.tree_history_linked_layers_verified",
@@ -189,11 +191,11 @@ def regenerate_tables(ctx):
     finite status domain, and the variant probes; emit Generated/C09_HttpTables.lean and C09_Variant.lean.
     A driver that fails leaves empty tables: the Tie theorems (completeness) then fail closed."""
     import os
-    send, fol, mrr, var = [], [], [], {}
+    send, fol, mrr, var, ver = [], [], [], {}, []
     rc, out, outdir = ctx.go_test("./server/internal/client/ollama/", OVERLAY_TABLES, "^TestVerifC09Tables$")
     if rc == 0:
         rd = lambda n: [l.split() for l in open(os.path.join(outdir, n))] if os.path.exists(os.path.join(outdir, n)) else []
-        send, fol = rd("send.txt"), rd("follow.txt")
+        send, fol, ver = rd("send.txt"), rd("follow.txt"), rd("verify.txt")
         var.update({k: v for k, v in rd("variant.txt")})
     else:
         ctx.notes.append("table driver (client) failed: " + out[-400:])
@@ -215,8 +217,15 @@ def regenerate_tables(ctx):
             ", ".join(f'({h}, "{m}", "{bd}", {s1}, {b(l1)}, {s2}, "{n}")' for h, m, bd, s1, l1, s2, n in fol) + "]\n"
             "/-- (method, status answered without Location, what the real makeRequestWithRetry returned: ok | notFound | err) -/\n"
             "def mrrTable : List (String × Nat × String) := [" + ", ".join(f'("{m}", {st}, "{c}")' for m, st, c in mrr) + "]\n"
+            "/-- (relation of the blob file to the manifest entry, did the real verifyLayer pass, is the file still there) -/\n"
+            "def verifyTable : List (String × Bool × Bool) := [" + ", ".join(f'("{n}", {b(o)}, {b(x)})' for n, o, x in ver) + "]\n"
             "end OllamaVerif.Generated.C09\n")
     core.write_generated("OllamaVerif/Generated/C09_HttpTables.lean", body)
+    for n, o, x in ver:
+        if (o == "1") != (n == "exact"):
+            ctx.violation("verify-layer-decision-differs", f"verifyLayer: manifest entry `abcdef` size 6, blob file in the cache: {n}",
+                          f"the real verifyLayer {'passes' if o == '1' else 'fails'} (file {'kept' if x == '1' else 'removed'}); "
+                          "only a file of exactly the manifest's size whose whole-file SHA-256 is the digest may pass")
     # a status the real sendRequest accepts or refuses against the model's is2xx: report it with the input
     for s_, o in send:
         if (o == "1") != (200 <= int(s_) < 300):
